@@ -90,6 +90,11 @@ impl WriteSource for pr::ExprKind {
     fn write(&self, mut opt: WriteOpt) -> Option<String> {
         use pr::ExprKind::*;
 
+        // the position inside a binary operator concerns its direct operands only
+        if !matches!(self, Binary(_)) {
+            opt.binary_position = super::Position::Unspecified;
+        }
+
         match &self {
             Ident(ident) => Some(ident.to_string()),
 
